@@ -61,13 +61,13 @@ impl MatrixId {
             let first = percent_decode_str(first_raw).decode_utf8()?;
             let second = percent_decode_str(second_raw).decode_utf8()?;
 
-            match first.as_bytes()[0] {
-                b'!' | b'#' if second.as_bytes()[0] == b'$' => {
+            match (first.as_bytes().first(), second.as_bytes().first()) {
+                (Some(b'!' | b'#'), Some(b'$')) => {
                     let room_id = <&RoomOrAliasId>::try_from(first.as_ref())?;
                     let event_id = <&EventId>::try_from(second.as_ref())?;
                     Ok((room_id, event_id).into())
                 }
-                b'$' if matches!(second.as_bytes()[0], b'!' | b'#') => {
+                (Some(b'$'), Some(b'!' | b'#')) => {
                     let room_id = <&RoomOrAliasId>::try_from(second.as_ref())?;
                     let event_id = <&EventId>::try_from(first.as_ref())?;
                     Ok((room_id, event_id).into())
